@@ -235,8 +235,41 @@ pub fn run(ctx: &'static Ctx) {
                 }
             }
         }
+        // ... and every pair of value deviations (a sub-command next to a particular form of
+        // another member)
+        for anchor in [0u64, plan.full_mask()] {
+            let enabled: Vec<usize> = (0..plan.leaves.len()).filter(|l| plan.leaf_enabled(*l, anchor)).collect();
+            for (ai, a) in enabled.iter().enumerate() {
+                for b in &enabled[ai + 1..] {
+                    for i in 1..plan.leaves[*a].menu.len() {
+                        for j in 1..plan.leaves[*b].menu.len() {
+                            payloads.push(crate::refcbor::encode(&plan.build(anchor, &[(*a, i), (*b, j)])));
+                        }
+                    }
+                }
+            }
+        }
+        // ... and every sub-command with every single optional member present at each menu value
+        for o in 0..plan.opts.len() {
+            let m = plan.normalize_up(1u64 << o);
+            for (li, info) in plan.leaves.iter().enumerate() {
+                if plan.leaf_enabled(li, m) {
+                    for i in 0..info.menu.len() {
+                        for (lj, info2) in plan.leaves.iter().enumerate() {
+                            if lj != li && plan.leaf_enabled(lj, m) {
+                                for j in 0..info2.menu.len() {
+                                    payloads.push(crate::refcbor::encode(&plan.build(m, &[(li, i), (lj, j)])));
+                                }
+                            }
+                        }
+                    }
+                }
+            }
+        }
+        payloads.sort();
+        payloads.dedup();
         let pr = &payloads;
-        sweep(ctx, "0x41 vs 0x0A on the credential-management corpus", payloads.len() as u64, "every member subset and every single menu-value deviation (all sub-commands) of a CredentialManagement parameter map", move |idx, l| {
+        sweep(ctx, "0x41 vs 0x0A on the credential-management corpus", payloads.len() as u64, "every member subset, every single and every pair of menu-value deviations from both anchors, and every pair of values in messages with one optional member, of a CredentialManagement parameter map", move |idx, l| {
             l.nontrivial += 1;
             let v = check_point(0x41, &pr[idx as usize]);
             l.bump("prototype alias");
